@@ -63,6 +63,8 @@ pub struct OpCtx<'a> {
     pub log: &'a mut Vec<String>,
     pub rid: u64,
     pub max_depth: u32,
+    pub ascii: bool,
+    pub nchars: &'a mut u32,
 }
 
 impl<'a> OpCtx<'a> {
@@ -71,7 +73,19 @@ impl<'a> OpCtx<'a> {
         *self.tagn
     }
     fn chars(&mut self, n: usize) -> String {
-        (0..n).map(|_| tag_char(self.tag())).collect()
+        (0..n)
+            .map(|_| {
+                *self.nchars += 1;
+                if self.ascii && *self.nchars <= 62 {
+                    // class 0 of tag_char: index = n / 4
+                    tag_char((*self.nchars - 1) * 4)
+                } else if self.ascii {
+                    tag_char(4 * (*self.nchars) + 1)
+                } else {
+                    tag_char(self.tag())
+                }
+            })
+            .collect()
     }
 }
 
